@@ -93,7 +93,7 @@ TrTemplate ==
   /\ verdict' = (IF Grp("template") THEN TemplateFail(Ev) ELSE verdict)
   /\ diag' = diag \o ClassifyDiag(Ev)
   /\ l' = l + 1
-  /\ UNCHANGED <<cid, pc, t, Vs, exact, nrows, nskip>>
+  /\ UNCHANGED <<cid, pc, t, Vs, exact, nrows, nskip, Ci>>
 
 (* ------------------------------------------------------------ solve (C01, C05) *)
 SpecFlat(p) == Flat(M, Vs[p + 1])
@@ -199,7 +199,7 @@ TrSimPeriod ==
         /\ nskip' = nskip + Cardinality(skip)
   /\ t' = t + 1
   /\ IF t = M.T - 1 THEN pc' = "events" /\ l' = l + 1 ELSE UNCHANGED <<pc, l>>
-  /\ UNCHANGED <<cid, Vs, exact, diag>>
+  /\ UNCHANGED <<cid, Vs, exact, diag, Ci>>
 
 (* ------------------------------------------------------------ relations between recorded runs *)
 (***************************************************************************)
